@@ -79,6 +79,36 @@ def validate():
                 r2, RD2 = read_set(v, o2)
                 if not (r2[0] == "ok" and r2[1] == rs[1] and RD2 == RD):
                     fails.append(("resolve depends on o only through its read set", v, o, RD))
+            # structure of resolve (theory.resolve_structure_axioms)
+            import re as _re
+            if isinstance(v, str):
+                tk_ = set(_re.findall(ct.TEMPLATE_KEY, v))
+                sub = {k: read_set(get_dotted_key(k, o), o) for k in tk_ if has(o, k)}
+                if rs[0] == "ok":
+                    for k in tk_:
+                        if not (has(o, k) and sub[k][0][0] == "ok" and k in RD and sub[k][1] <= RD):
+                            fails.append(("RS: referenced keys resolve and their reads are reads", v, o, k))
+                    for k in RD:
+                        if not (k in tk_ or any(k in sub[j][1] for j in sub)):
+                            fails.append(("RS: every read comes from a referenced key", v, o, k))
+                else:
+                    if not any((not has(o, k)) or sub[k][0][0] != "ok" for k in tk_):
+                        fails.append(("RS: a failing string has a failing reference", v, o))
+                    if isinstance(rs[1], KeyError):
+                        kk = rs[1].args[0]
+                        okk = any(((not has(o, k)) and kk == k) or (has(o, k) and sub[k][0][0] == "err" and isinstance(sub[k][0][1], KeyError) and sub[k][0][1].args[0] == kk) for k in tk_)
+                        if not okk:
+                            fails.append(("RS: the KeyError names the failing reference or what its value's substitution names", v, o, kk))
+            if isinstance(v, (list, dict)):
+                kids = list(v.values()) if isinstance(v, dict) else list(v)
+                subs = [read_set(c, o) for c in kids]
+                if rs[0] == "ok":
+                    if not all(s_[0][0] == "ok" and s_[1] <= RD for s_ in subs) or not RD <= set().union(*[s_[1] for s_ in subs], set()):
+                        fails.append(("RC: a container resolves elementwise", v, o))
+                elif not any(s_[0][0] != "ok" for s_ in subs):
+                    fails.append(("RC: a failing container has a failing element", v, o))
+                elif isinstance(rs[1], KeyError) and not any(s_[0][0] == "err" and isinstance(s_[0][1], KeyError) and s_[0][1].args[0] == rs[1].args[0] for s_ in subs):
+                    fails.append(("RC: a container's KeyError is an element's KeyError", v, o))
             # contract of _templated_keys
             if tx[0] != "ok":
                 fails.append(("explain variant never raises", v, o, repr(tx[1])))
